@@ -47,7 +47,7 @@ impl Log {
     pub fn take(&self) -> Vec<Value> {
         self.inner.lock().unwrap().clone()
     }
-    fn has(&self, pred: impl Fn(&Value) -> bool) -> bool {
+    pub fn has(&self, pred: impl Fn(&Value) -> bool) -> bool {
         self.inner.lock().unwrap().iter().any(|v| pred(v))
     }
 }
